@@ -187,6 +187,7 @@ class RedlineEngine:
         Returns (clean_text, style_name).
         """
         if text.startswith("#"):
+            original = text
             level = 0
             while text.startswith("#"):
                 level += 1
@@ -194,6 +195,9 @@ class RedlineEngine:
 
             if text.startswith(" "):
                 return text.strip(), f"Heading {level}"
+
+            # '#1 priority', '#hashtag': not a heading, the text stays as it is
+            return original, None
 
         return text, None
 
